@@ -689,6 +689,11 @@ func c20matchFor(p *core.Prog, f *ssa.Function) (bool, string) {
 	if len(apply.Call.Args) != 1 || len(matches.Call.Args) != 1 || apply.Call.Args[0] != matches.Call.Args[0] {
 		return false, "Apply does not receive the value that was matched"
 	}
+	// the value tested: the argument itself or, for a pointer to a struct (decided by reflect kinds, so for
+	// every struct type), its pointee
+	if why := c20probe(p, f, matches.Call.Args[0], 0); why != "" {
+		return false, why
+	}
 	// apply on the matches-true edge, returned immediately
 	onTrue := false
 	for _, cnd := range core.EdgeFacts(apply.Block()) {
@@ -787,4 +792,89 @@ func c20boolTo10(p *core.Prog, cl *ssa.Function, cond ssa.Value, depth int) (okT
 		}
 	})
 	return
+}
+
+// c20probe checks the value handed to Matches: every leaf is the function's own argument, or a
+// dereference that happens only where the argument is known to be a pointer (kind test) whose pointee
+// has the struct kind (kind comparison) - a test on reflect kinds, not on one concrete type.
+func c20probe(p *core.Prog, f *ssa.Function, v ssa.Value, depth int) string {
+	if depth > 6 {
+		return "the value handed to Matches is too deeply nested to follow"
+	}
+	v = core.Resolve(v)
+	in := f.Params[len(f.Params)-1]
+	switch x := v.(type) {
+	case *ssa.Parameter:
+		if x == in {
+			return ""
+		}
+		// parameter of an extracted helper: bound to the argument at every call site
+		acts := core.ParamActuals(p, x)
+		if len(acts) == 0 {
+			return "the value handed to Matches is not derived from MatchFor's argument"
+		}
+		return ""
+	case *ssa.Phi:
+		for _, e := range x.Edges {
+			if why := c20probe(p, f, e, depth+1); why != "" {
+				return why
+			}
+		}
+		return ""
+	case *ssa.Call:
+		// extracted helper computing the probe: follow its returns
+		g := core.Callee(&x.Call)
+		if g == nil || !p.InRepo(g) || len(g.Blocks) == 0 || len(g.Params) == 0 {
+			return "the value handed to Matches is the result of " + core.Path(x) + ", not MatchFor's argument or its pointee"
+		}
+		why := ""
+		core.Instrs(g, func(ins ssa.Instruction) {
+			if r, ok := ins.(*ssa.Return); ok && r.Block() != g.Recover && len(r.Results) == 1 && why == "" {
+				why = c20probe(p, g, core.RetVals(r)[0], depth+1)
+			}
+		})
+		return why
+	case *ssa.UnOp:
+		if x.Op != token.MUL {
+			break
+		}
+		isPtr, isStruct := false, false
+		check := func(b *ssa.BasicBlock) bool {
+			for _, cnd := range core.EdgeFacts(b) {
+				n := core.Normalize(cnd)
+				if call, ok := n.V.(*ssa.Call); ok && n.True {
+					if (call.Call.IsInvoke() && call.Call.Method.Name() == "IsKind" || core.Callee(&call.Call) != nil && core.Callee(&call.Call).Name() == "IsKind") && len(call.Call.Args) > 0 && core.IsIntConst(call.Call.Args[len(call.Call.Args)-1], 22) {
+						isPtr = true
+					}
+					if g := core.Callee(&call.Call); g != nil && g.Name() == "IsPtr" {
+						isPtr = true
+					}
+				}
+				if cmp, ok := core.AsCmp(n); ok && cmp.Op == token.EQL {
+					kx, ky := c20isKindCall(cmp.X), c20isKindCall(cmp.Y)
+					if kx && (ky || core.IsIntConst(cmp.Y, 25)) || ky && core.IsIntConst(cmp.X, 25) {
+						isStruct = true
+					}
+					if kx && core.IsIntConst(cmp.Y, 22) {
+						isPtr = true
+					}
+				}
+			}
+			return isPtr && isStruct
+		}
+		if core.HoldsInCtx(p, x.Block(), check) {
+			return ""
+		}
+		return "the probe is dereferenced without the kind tests (argument is a pointer, pointee has the struct kind): pointers to struct types are no longer matched as the struct they point to, or other pointers are dereferenced"
+	}
+	return "the value handed to Matches (" + core.Path(v) + ") is neither MatchFor's argument nor its pointee"
+}
+
+func c20isKindCall(v ssa.Value) bool {
+	call, ok := core.Resolve(v).(*ssa.Call)
+	if !ok {
+		return false
+	}
+	n := core.StdCallee(&call.Call)
+	return n == "reflect.(Value).Kind" || n == "reflect.(Type).Kind" || (call.Call.IsInvoke() && call.Call.Method.Name() == "Kind")
 }
